@@ -203,6 +203,15 @@ Theorem C05_written_directory_valid_seq : forall opt seg meta ops k,
 Proof. exact written_directory_valid_seq. Qed.
 Print Assumptions C05_written_directory_valid_seq.
 
+Theorem C05_open_selects_suffix : forall opt seg meta ops snap,
+  select_files (w_files (w_run opt seg meta ops)) snap =
+  match search_index (w_files (w_run opt seg meta ops)) (sn_index snap) 0 None with
+  | Some i => Some (skipn i (w_files (w_run opt seg meta ops)))
+  | None => None
+  end.
+Proof. exact select_written. Qed.
+Print Assumptions C05_open_selects_suffix.
+
 Theorem C05_search_index_is_last_le : forall files index i best,
   search_index files index i best =
   match find (fun p => sg_idx (snd p) <=? index) (rev (combine (seq i (length files)) files)) with
